@@ -20,7 +20,7 @@ CHECK = dict(
           'the runs one or two further rounds follow (clean stop, new snapshot, the tool again - e.g. completing '
           'a compaction abandoned before the server ran - server, blocks, audit). '
           'non-trivial = a compaction ran (done / crashed / stopped) and the invariance oracle was evaluated'),
-    assumptions=['SimDB stands in for LevelDB (batches atomic)', 'the tool is loaded from the working tree with '
+    assumptions=['a simulated plyvel module stands in for the LevelDB engine (batches atomic)', 'the tool is loaded from the working tree with '
                  'SourceFileLoader and run on a fresh simulated loop like a separate process'],
     required_probes=['c14.compact.done', 'c14.compact.crashed', 'c14.compact.stopped',
                      'c14.server_started_after.done', 'c14.server_started_after.crashed', 'c14.crash.commit',
